@@ -72,6 +72,20 @@ fn run_case(cx: &CaseCtx, rep: &mut Report) {
 		}
 		ts.shape.push_str(" +z6:run-square");
 	}
+	if target == "pmtiles" && rng.chance(0.3) {
+		// the last tile ids of deep levels: the corner (2^z - 1, 0) and its neighbours end the Hilbert curve of a level
+		for _ in 0..2 {
+			let z = rng.range(25, 31) as u8;
+			if ts.levels().contains(&z) {
+				continue;
+			}
+			let m = ((1u64 << z) - 1) as u32;
+			for (x, y) in [(m, 0u32), (m - 1, 0), (m, 1), (m - 1, 1)] {
+				ts.tiles.insert((z, x, y), format!("end of level {z}: {x}/{y}").into_bytes());
+			}
+			ts.shape.push_str(&format!(" +z{z}:last-ids"));
+		}
+	}
 	cx.progress(&format!("{target} {}", ts.shape));
 	let dir = cx.fresh_dir("c16");
 	let path = container_path(&dir, target);
